@@ -1,0 +1,28 @@
+//go:build verif
+
+// Contracts for the govc verifier (/verif). This file contains comments only; it is compiled
+// only under the build tag "verif" and contributes no declarations.
+package access
+
+// Registering a member's share public key (C15): the first key registered for a member of a joined group
+// stays - announcements are self-certified (verified under the key they carry), so a later announcement naming
+// the same member must not replace the key that member's shares are verified under.
+//@ func JoinedGroupStorage.GetJoinedGroupInfo
+//@   option trusted
+//@   ensures result != nil ==> result.MemberSignPubkeyMap != nil
+//@   modifies nothing
+
+//@ func JoinedGroupStorage.saveGroupInfo
+//@   option trusted
+//@   modifies nothing
+
+//@ func JoinedGroupStorage.initStore
+//@   option trusted
+//@   modifies storage.cache
+
+//@ func JoinedGroupStorage.AddMemberSignPk
+//@   property C15
+//@   requires storage != nil
+//@   ensures [firstwins] result0 != nil && old(has(result0.MemberSignPubkeyMap, hexOf(minerId))) ==> !result1 && result0.MemberSignPubkeyMap[hexOf(minerId)] == old(result0.MemberSignPubkeyMap[hexOf(minerId)])
+//@   ensures [added]     result1 ==> result0 != nil && result0.MemberSignPubkeyMap[hexOf(minerId)] == signPK
+//@   ensures [others]    result0 != nil ==> forall k string :: k != hexOf(minerId) ==> has(result0.MemberSignPubkeyMap, k) == old(has(result0.MemberSignPubkeyMap, k)) && result0.MemberSignPubkeyMap[k] == old(result0.MemberSignPubkeyMap[k])
